@@ -267,16 +267,19 @@ Section AvlProofs.
   Qed.
 
   (* ---------- the generated balance decision never sends a rotation through a NULL child ---------- *)
+  (* written to survive edits of the thresholds that keep the property: only the shape "a rotation to the right needs
+     lg(L_COUNT) above a positive bound, a rotation to the left needs a non-zero R_COUNT" is used *)
   Lemma decision_left_nonempty r : avl_balance_decision (avl_lg 0) r <> -1.
   Proof using. clear cmp_antisym cmp_trans cmp_eq_l; clear cmp.
     unfold avl_balance_decision. change (avl_lg 0) with 0.
-    destruct (z2b (shr r (s32 (0 + 1)))); [discriminate|]. cbn. discriminate.
+    repeat match goal with |- context [if ?b then _ else _] => destruct b eqn:? end; try discriminate.
+    all: try (exfalso; cbn in *; discriminate).
   Qed.
 
   Lemma decision_right_nonempty pl : avl_balance_decision pl 0 <> 1.
   Proof using. clear cmp_antisym cmp_trans cmp_eq_l; clear cmp.
     unfold avl_balance_decision. unfold shr. rewrite !Zdiv_0_l. cbn [z2b Z.eqb negb].
-    destruct ((pl <? 2) || false); discriminate.
+    repeat match goal with |- context [if ?b then _ else _] => destruct b eqn:? end; discriminate.
   Qed.
 
   Theorem rebal_never_stuck l r : wfc l -> wfc r -> rebal_stuck key l r = false.
